@@ -246,7 +246,12 @@ theorem traced_multiset (ops : List Op) (st : State) (hst : st = run State.init 
     obtain ⟨hxm, hxs, _, _⟩ := repsFrom_mem H x hx
     exact ⟨x, hx, inv.same x hxm h hm (by rw [hxs, hs]) (by omega)⟩
 
-/-- A stashed object is traced while a handle exists … -/
+/-- A stashed object is traced while a handle exists …  The model's `stash` is the same for every
+payload: the collector-side barrier (`backward_barrier(set, Some(root))`, Model/Context.lean) and
+the slot store are unconditional in the payload's `Collect::NEEDS_TRACE` — a leaf (`NEEDS_TRACE ==
+false`: `Gc<i32>`, `Gc<Rc<_>>`, `Gc<Static<_>>`, a zero-sized type) needs no *tracing* but still has to
+be *marked*, and only the re-trace of the (black) set object marks it.  The correspondence harness
+therefore stashes node and leaf payloads alike (ops `stashleaf` / `stashfin`). -/
 theorem traced_while_handle (ops : List Op) (st : State) (hst : st = run State.init ops)
     (h : Handle) (hm : h ∈ st.handles) (rs : RootSet) (hl : st.liveSet h.set = some rs) :
     h.ptr ∈ rs.slots.traced :=
